@@ -54,6 +54,7 @@ let parse_tev (s : string) : tev list =
 
 let () =
   reg "pipe.run" (fun (pf :: reqs :: gate :: evs) ->
+      flush stdout;
       let pfn = n_of_string pf in
       let rl = List.map parse_req (split_on ',' reqs) in
       let tbl = List.map (fun (r, _) -> (string_of_n r.rq_id, r)) rl in
@@ -70,6 +71,7 @@ let () =
       ^ " early=" ^ (if gate <> "1" then "-" else if early = [] then "none" else String.concat "," (List.map string_of_n early))
       ^ " crash=" ^ b2s c2.c_crashed ^ " rest=0");
   reg "tun.run" (fun (racy :: early :: evs) ->
+      flush stdout;
       let t = ref (tun_start (bytes_of_hex early)) in
       List.iter (fun e ->
           if e = "z" then t := tsettle (nat_of_int 64) !t
